@@ -27,8 +27,8 @@ from . import c14
 
 
 class Sess:
-    def __init__(self) -> None:
-        w = ConnWorld(client=True, login=True)
+    def __init__(self, noise: bool = False) -> None:
+        w = ConnWorld(client=True, login=True, noise=noise)
         w.connect_fully()
         self.w = w
         self.client = w.client
@@ -144,6 +144,18 @@ def run_states(tier: str) -> dict[str, Any]:
         for t in types:
             m = mk(t, 4)
             check([m, m, m], True, "repeats")
+    finally:
+        s.close()
+    # the same over the encrypted transport (every type, all pairs in one chunk and in separate chunks)
+    got = []
+    s = Sess(noise=True)
+    try:
+        s.client.subscribe_states(got.append)
+        s.written()
+        for t in types:
+            check([pbgen.populate(getattr(pb, t)(), 3)], True, "noise")
+        for a, b in itertools.product(types, repeat=2):
+            check([mk(a, 1), mk(b, 2)], (hash((a, b)) & 1) == 0, "noise pairs")
     finally:
         s.close()
     return {"part": "states", "evals": evals, "viol": viol, "types": len(types)}
